@@ -71,7 +71,7 @@ Print Assumptions C04_single_resend.
 (* "exactly one": a message without pre-handler (application, TestRequest, Heartbeat, ResendRequest) numbered
    above the expected number, on a logged-on connection not yet awaiting a resend, makes the receiver write
    exactly one ResendRequest(BeginSeqNo = next_num_in, EndSeqNo = 0), deliver nothing, keep next_num_in and wait
-   in RESENDREQ_AWAITING (or drop) - provided the outbound side is intact (Out_inv of C05: no D12 / D20 damage,
+   in RESENDREQ_AWAITING (or drop) - provided the outbound side is intact (Out_inv of C05: no D20 damage,
    else the journal write of the request raises and the state is not advanced) and the send gate is open.
    [SequenceReset: D11; acceptor Logon: D26; Logout: the session ends] *)
 Theorem C04_gap_is_requested_partial : forall c m now w n,
